@@ -15,7 +15,7 @@ RULE = ("cases = (cone, list of points); oracle = brute-force dominance matrix (
         ">=3 points with at least one strictly dominated point and (a duplicate value or >=2 Pareto values)")
 ASSUMPTIONS = [
     "cones are pointed and solid (VOPy's standing assumption)",
-    "lattice spacing >= 1/4 so np.allclose in the naive routine never merges distinct values",
+    "all coordinates are dyadic rationals of magnitude < 2^23, so every facet product is exact in float64",
 ]
 
 EXACT_CONES_2D = [
@@ -123,6 +123,11 @@ def st_case(draw, maxn=60):
     else:
         pool = draw(st.lists(st.lists(gen.st_dyadic(-3, 3, 4), min_size=m, max_size=m), min_size=1, max_size=6))
         pts = [pool[i] for i in draw(st.lists(st.integers(0, len(pool) - 1), min_size=n, max_size=n))]
+    # the order is translation invariant: sometimes move the whole (exactly representable) set far from the origin
+    off = draw(st.sampled_from([0, 0, 0, 0, 4096, 100000, 3000000]))
+    if off:
+        sgn = [draw(st.sampled_from([1, -1])) for _ in range(m)]
+        pts = [[x + s_ * off for x, s_ in zip(p, sgn)] for p in pts]
     return {"cone": spec, "points": pts}
 
 
